@@ -9,6 +9,8 @@ import (
 	"fmt"
 	"os"
 	"sort"
+	"sync"
+	"sync/atomic"
 	"time"
 )
 
@@ -51,7 +53,17 @@ type Suite func(cfg Config, res *Result)
 
 var suites = map[string]Suite{}
 
+// hangSeenAt is set (unix nanoseconds) when an oracle gave up waiting for a call into the
+// implementation: a goroutine is then stuck in it, possibly holding a lock that everything else
+// needs, so the suite may never get to its end.  main's watchdog writes out what has been found
+// and ends the process a while after the first such event.
+var hangSeenAt atomic.Int64
+
+var resultMu sync.Mutex
+
 func (r *Result) add(f Finding) {
+	resultMu.Lock()
+	defer resultMu.Unlock()
 	r.FindingsTotal++
 	if r.sigCount == nil {
 		r.sigCount = map[string]int{}
@@ -102,15 +114,30 @@ func main() {
 	}
 	res := &Result{Suite: *suite, Seed: *seed, Tier: *tier}
 	t0 := time.Now()
-	s(Config{Seed: *seed, Tier: *tier, Driver: *driver, Replay: *replay}, res)
-	res.WallS = time.Since(t0).Seconds()
-	res.SigCount = res.sigCount
-	b, _ := json.MarshalIndent(res, "", " ")
-	if *out != "" {
-		os.WriteFile(*out, b, 0o644)
-	} else {
-		os.Stdout.Write(b)
+	write := func() {
+		resultMu.Lock()
+		defer resultMu.Unlock()
+		res.WallS = time.Since(t0).Seconds()
+		res.SigCount = res.sigCount
+		b, _ := json.MarshalIndent(res, "", " ")
+		if *out != "" {
+			os.WriteFile(*out, b, 0o644)
+		} else {
+			os.Stdout.Write(b)
+		}
 	}
+	go func() {
+		for {
+			time.Sleep(time.Second)
+			if at := hangSeenAt.Load(); at != 0 && time.Since(time.Unix(0, at)) > 40*time.Second {
+				write()
+				fmt.Fprintf(os.Stderr, "suite %s: ended by the watchdog 40s after an oracle reported a call that does not return\n", res.Suite)
+				os.Exit(0)
+			}
+		}
+	}()
+	s(Config{Seed: *seed, Tier: *tier, Driver: *driver, Replay: *replay}, res)
+	write()
 	fmt.Fprintf(os.Stderr, "suite %s: %d cases, %d distinct non-trivial, %d findings, %.1fs\n",
 		res.Suite, res.Cases, res.DistinctNontrivial, res.FindingsTotal, res.WallS)
 }
